@@ -1,8 +1,188 @@
 import PymtlVerif.Driver.Sexp
-/-! Handler `meta` (stub: not built yet). -/
-namespace PV.Driver.Meta
-open PV
+import PymtlVerif.Model.Meta
+/-!
+Handler `meta`: executable face of `Model/Meta.lean` for the C15 correspondence check.
 
-def handle (_args : List Sexp) : Option String := none
+Requests
+* `meta elab <hier>` — reply `ok <dump>`: the elaborated whole-design metadata.
+* `meta replace <hier> ((<path> <hier>)*)` — `replaceAll (elaborate H) rs`: reply `ok <dump>`, or
+  `err unresolved` when a saved name is not declared by the new subtree.
+* `meta build <hier> ((<path> <hier>)*)` — `elaborate (setAll H rs)`: reply `ok <dump>`.
+* `meta delete <hier> <path>` — reply `ok <dump of what is left> <dump of the saved entries>`.
+
+`<hier>` = `(<node>*)`, `<node>` = `(<path> <comp>)`, `<path>` = `(tok*)` (component names from the top,
+a list element `d[1]` is one token);
+`<comp>` = `ph ((name kind)*) ((mport kind)*) (<blk>*) ((a b)*) (<vc>*) (<vc>*) ((<mref> <mref> eq)*)
+            ((<ref> <ref>)*) ((<ref> val)*)` = placeholder flag, sigs, mports, blks, uu, rdu, wru, mcs, conns, consts;
+`<blk>` = `(name kind (<ref>*) (<ref>*) (<ref>*))` kind 0 update / 1 update_ff / 2 update_once, reads writes calls;
+`<ref>` = `(<path> name)` relative to the component; `<vc>` = `(<ref> lt blk)`; `<mref>` = `(u blk)` | `(m <ref>)`.
+
+`<dump>` = `(<entry>*)`, rendered entries sorted, duplicates removed (the containers are sets; the
+owner tag of a constraint is not part of the observable), followed by the derived value nets and
+method nets: `(net <writer> (<member>*))`, `(mnet <writer> (<member>*))` — connected components (size ≥ 2)
+of the adjacency over value signals (+ constants) resp. method ports; writer of a value net = its
+constant, a member written by an update block, a top-level input port or an output port of a placeholder (`_resolve_value_connections`
+for plain signals); writer of a method net = its callee port. `none` / `multi` if absent / ambiguous.
+Nets are computed here from the sorted dump (derived observable, not part of the theorems).
+-/
+namespace PV.Driver.Meta
+open PV PV.Meta
+
+def path? (x : Sexp) : Option Name := do (← x.list?).mapM Sexp.sym?
+
+def ref? : Sexp → Option Ref
+  | .list [p, .atom n] => do some (← path? p, n)
+  | _ => none
+
+def refs? (x : Sexp) : Option (List Ref) := do (← x.list?).mapM ref?
+
+def blk? : Sexp → Option Blk
+  | .list [.atom n, k, r, w, c] => do
+      some { name := n, kind := ← k.nat?, reads := ← refs? r, writes := ← refs? w, calls := ← refs? c }
+  | _ => none
+
+def pair? : Sexp → Option (String × String)
+  | .list [.atom a, .atom b] => some (a, b)
+  | _ => none
+
+def vc? : Sexp → Option (Ref × Bool × String)
+  | .list [r, lt, .atom b] => do some (← ref? r, ← lt.bool?, b)
+  | _ => none
+
+def mref? : Sexp → Option LMRef
+  | .list [.atom "u", .atom b] => some (.blk b)
+  | .list [.atom "m", r] => do some (.meth (← ref? r))
+  | _ => none
+
+def mc? : Sexp → Option (LMRef × LMRef × Bool)
+  | .list [x, y, eq] => do some (← mref? x, ← mref? y, ← eq.bool?)
+  | _ => none
+
+def conn? : Sexp → Option (Ref × Ref)
+  | .list [a, b] => do some (← ref? a, ← ref? b)
+  | _ => none
+
+def const? : Sexp → Option (Ref × String)
+  | .list [a, .atom v] => do some (← ref? a, v)
+  | _ => none
+
+def comp? : Sexp → Option Comp
+  | .list [ph, sg, mp, bl, uu, rd, wr, mc, cn, cs] => do
+      some { ph := ← ph.bool?, sigs := ← (← sg.list?).mapM pair?, mports := ← (← mp.list?).mapM pair?,
+             blks := ← (← bl.list?).mapM blk?, uu := ← (← uu.list?).mapM pair?,
+             rdu := ← (← rd.list?).mapM vc?, wru := ← (← wr.list?).mapM vc?,
+             mcs := ← (← mc.list?).mapM mc?, conns := ← (← cn.list?).mapM conn?,
+             consts := ← (← cs.list?).mapM const? }
+  | _ => none
+
+def hier? (x : Sexp) : Option Hier := do
+  (← x.list?).mapM fun n => match n with
+    | .list [p, c] => do some (← path? p, ← comp? c)
+    | _ => none
+
+def reps? (x : Sexp) : Option (List (Name × Hier)) := do
+  (← x.list?).mapM fun n => match n with
+    | .list [p, h] => do some (← path? p, ← hier? h)
+    | _ => none
+
+/-! rendering -/
+
+def showName (n : Name) : String := n.foldl (fun acc t => acc ++ "." ++ t) "s"
+def showSig (s : Sig) : String := showName s.1 ++ "." ++ s.2
+def showBlk (b : BlkId) : String := showName b.1 ++ " " ++ b.2
+def showNode : Node → String
+  | .sig s => showSig s
+  | .const o s v => s!"(const {showName o} {showSig s} {v})"
+def showMRef : MRef → String
+  | .blk b => s!"(u {showBlk b})"
+  | .meth s => s!"(m {showSig s})"
+
+def showEntry : Entry → String
+  | .comp n ph => s!"(comp {showName n} {b2s ph})"
+  | .sig s k => s!"(sig {showSig s} {k})"
+  | .mport s k => s!"(mport {showSig s} {k})"
+  | .blk b => s!"(blk {showBlk b})"
+  | .ff b => s!"(ff {showBlk b})"
+  | .once b => s!"(once {showBlk b})"
+  | .read b s => s!"(read {showBlk b} {showSig s})"
+  | .write b s => s!"(write {showBlk b} {showSig s})"
+  | .call b s => s!"(call {showBlk b} {showSig s})"
+  | .uu _ a b => s!"(uu {showBlk a} {showBlk b})"
+  | .rdu _ v lt b => s!"(rdu {showSig v} {b2s lt} {showBlk b})"
+  | .wru _ v lt b => s!"(wru {showSig v} {b2s lt} {showBlk b})"
+  | .mc _ x y eq => s!"(mc {showMRef x} {showMRef y} {b2s eq})"
+  | .edge a b => s!"(edge {showNode a} {showNode b})"
+
+def sortDedup (xs : List String) : List String :=
+  ((xs.toArray.qsort (· < ·)).toList).eraseDups
+
+/-! derived nets -/
+
+/-- connected component of `start` (rendered vertex names) over the undirected edge list -/
+partial def floodfill (edges : List (String × String)) (todo : List String) (seen : List String) :
+    List String :=
+  match todo with
+  | [] => seen
+  | u :: rest =>
+    if seen.contains u then floodfill edges rest seen
+    else
+      let nb := edges.filterMap fun (a, b) => if a == u then some b else none
+      floodfill edges (nb ++ rest) (u :: seen)
+
+def netsOf (M : Meta) : List String := Id.run do
+  let sigs := sortDedup (M.filterMap fun e => match e with | .sig s _ => some (showSig s) | _ => none)
+  let mports := sortDedup (M.filterMap fun e => match e with | .mport s _ => some (showSig s) | _ => none)
+  let edges := M.filterMap fun e => match e with
+    | .edge a b => some (showNode a, showNode b) | _ => none
+  let written := M.filterMap fun e => match e with | .write _ s => some (showSig s) | _ => none
+  let topIn := M.filterMap fun e => match e with
+    | .sig s k => if s.1.isEmpty && k == "in" then some (showSig s) else none | _ => none
+  let phs := M.filterMap fun e => match e with | .comp n true => some n | _ => none
+  let phOut := M.filterMap fun e => match e with
+    | .sig s k => if k == "out" && phs.contains s.1 then some (showSig s) else none | _ => none
+  let callees := M.filterMap fun e => match e with
+    | .mport s k => if k == "callee" then some (showSig s) else none | _ => none
+  let mut out : List String := []
+  let mut seen : List String := []
+  for (tag, verts) in [("net", sigs), ("mnet", mports)] do
+    for v in verts do
+      if !seen.contains v then
+        let net := sortDedup (floodfill edges [v] [])
+        seen := net ++ seen
+        if net.length ≥ 2 then
+          let ws := net.filter fun m =>
+            if tag == "net" then m.startsWith "(const" || written.contains m || topIn.contains m || phOut.contains m
+            else callees.contains m
+          let w := match ws with
+            | [] => "none"
+            | [w] => w
+            | _ => "multi"
+          out := s!"({tag} {w} ({" ".intercalate net}))" :: out
+  return sortDedup out
+
+def dump (M : Meta) : String :=
+  "(" ++ " ".intercalate (sortDedup (M.map showEntry) ++ netsOf M) ++ ")"
+
+def handle (args : List Sexp) : Option String :=
+  match args with
+  | [.atom "elab", h] => do
+      let H ← hier? h
+      some ("ok " ++ dump (elaborate H))
+  | [.atom "replace", h, rs] => do
+      let H ← hier? h
+      let rs ← reps? rs
+      match replaceAll (elaborate H) rs with
+      | some M => some ("ok " ++ dump M)
+      | none => some "err unresolved"
+  | [.atom "build", h, rs] => do
+      let H ← hier? h
+      let rs ← reps? rs
+      some ("ok " ++ dump (elaborate (setAll H rs)))
+  | [.atom "delete", h, p] => do
+      let H ← hier? h
+      let p ← path? p
+      let (K, S) := delete (elaborate H) p
+      some ("ok " ++ dump K ++ " (" ++ " ".intercalate (sortDedup (S.map showEntry)) ++ ")")
+  | _ => none
 
 end PV.Driver.Meta
